@@ -189,6 +189,38 @@ class ApproxWasserstein(LotBase):
     transform_kwargs = False
 
 
+class EmptyRows:
+    """pool item 7 is the EMPTY distribution (an all-zero row of the sparse matrix: a valid input, e.g. a document none of whose
+    tokens has a vector); items 1..6 are as usual.  Knob 1 makes one block hold 288 rows (> the minimal chunk of 256)."""
+    knobs = [dict(memory_size="72k"), dict(memory_size="2G"), dict(memory_size="1k")]
+
+    def make_pool(self):
+        pool = LotBase.make_pool(self)
+        pool[6] = np.zeros_like(pool[6])
+        return pool
+
+
+class WassersteinExactSpecial(EmptyRows, LotBase):
+    name = "WassersteinVectorizer[LOT_exact,spmatrix, special batches]"
+    configs = [dict(), dict(metric="euclidean", memory_size="1k")]
+
+
+class WassersteinLilSpecial(EmptyRows, WassersteinLil):
+    name = "WassersteinVectorizer[LOT_exact,lil, special batches]"
+    configs = [dict()]
+
+    def make_pool(self):           # (an empty list distribution has no documented meaning: the lil carrier only gets the long batches)
+        return LotBase.make_pool(self)
+
+
+class SinkhornSpecial(EmptyRows, LotBase):
+    name = "SinkhornVectorizer[special batches]"
+    cls_name = "SinkhornVectorizer"
+    rtol, atol = 1e-5, 1e-6
+    configs = [dict()]
+
+
+SPECIAL = {c.name: c for c in [WassersteinExactSpecial, WassersteinLilSpecial, SinkhornSpecial]}
 FAR = {c.name: c for c in [SinkhornFar, WassersteinSinkhornFar, WassersteinExactFar]}
 ALL = {c.name: c for c in [WassersteinExact, WassersteinSinkhornMethod, WassersteinHeuristic, WassersteinLil, WassersteinGenerator,
                            Sinkhorn, ApproxWasserstein]}
@@ -216,7 +248,7 @@ class MeasureMixin:
 class MeasureLil(MeasureMixin, WassersteinLil):
     name = "Measure[LOT_exact,lil]"
     configs = [dict(), dict(metric="euclidean"), dict(memory_size="1k")]
-    knobs = [dict(memory_size="1k"), dict(memory_size="2G"), dict(memory_size="3k")]
+    knobs = [dict(memory_size="1k"), dict(memory_size="2G"), dict(memory_size="3k"), dict(memory_size="54k")]   # 54k: 288-row blocks
 
     def make(self):
         cfg = dict(n_components=2, reference_size=3, random_state=self.seed % 1000, input_method="lil")
@@ -259,7 +291,7 @@ class MeasureSparse(MeasureMixin, LotBase):
     explicitly; listing order (Swap) has no counterpart in this format"""
     name = "Measure[LOT_exact,spmatrix]"
     configs = [dict(), dict(metric="euclidean", memory_size="1k")]
-    knobs = [dict(memory_size="1k"), dict(memory_size="2G")]
+    knobs = [dict(memory_size="1k"), dict(memory_size="2G"), dict(memory_size="1k"), dict(memory_size="54k")]   # 54k: 288-row blocks
     method = "LOT_exact"
 
     def make(self):
@@ -334,3 +366,4 @@ MEASURE = {c.name: c for c in [MeasureLil, MeasureGen, MeasureSparse, MeasureSin
 ALL.update(MEASURE)
 ROWWISE = [n for n in ROWWISE if not n.startswith("Measure")]
 ALL.update(FAR)
+ALL.update(SPECIAL)
